@@ -58,7 +58,7 @@ pub fn configs(prop: &str, thorough: bool) -> Vec<(Cfg, Option<usize>)> {
                         for per in [Per::H(2), Per::T(2 * DT)] {
                             i += 1;
                             // quick: a covering subset (every threshold kind x every weight vector at least once, both contracts)
-                            if !thorough && i % 4 != 0 && !(wn == "w011" && (tn == "pct51" || tn == "q50-33.3" || tn == "count1") && per == Per::H(2)) {
+                            if !thorough && i % 4 != 0 && !(wn == "w011" && (tn == "pct51" || tn == "q50-33.3" || tn == "count1") && per == Per::H(2)) && !(wn == "w123" && tn == "q50-33.3" && per == Per::H(2)) {
                                 continue;
                             }
                             let mut c = Cfg::base(&format!("C03/{}/{wn}/{tn}/{}", if flex { "flex" } else { "fixed" }, if per == Per::H(2) { "height" } else { "time" }), flex);
@@ -267,6 +267,25 @@ pub fn configs(prop: &str, thorough: bool) -> Vec<(Cfg, Option<usize>)> {
                         }
                     }
                 }
+            }
+            // (a-) a proposal that lists the very same message twice in a row (two equal instalments), and the proposer
+            // itself as the caller of Close before and after expiry
+            for flex in [false, true] {
+                let mut c = Cfg::base(&format!("C05/{}/count2/Anyone/height/repeated-message+proposer-closes", if flex { "flex" } else { "fixed" }), flex);
+                c.props = Props { c05: true, c03: true, ..Default::default() };
+                c.actors = vec!["A", "B", "Z", "X"];
+                c.voters = vec![(0, 1), (1, 1), (2, 0)];
+                c.th = Th::Count(2);
+                c.max_props = 1;
+                c.kinds = vec![PK::TagTwice];
+                c.votes = vec![VoteA::Yes, VoteA::No];
+                c.proposers = vec![0];
+                c.voters_acting = vec![1];
+                c.executors = vec![3];
+                c.closers = vec![0, 3];
+                c.blocks = 3;
+                c.max_faults = 1;
+                out.push((c, None));
             }
             // (a') Member executor while the group changes: a voter removed from the group may no longer execute
             for (tn, th) in &ths {
@@ -541,6 +560,36 @@ pub fn configs(prop: &str, thorough: bool) -> Vec<(Cfg, Option<usize>)> {
                 c.blocks = 4;
                 out.push((c, None));
             }
+            // the group behind the multisig is a cw4-stake contract: members change their own weight by bonding and
+            // unbonding (down to nothing) while proposals are open
+            for (tn, th) in [("count2", Th::Count(2)), ("pct51", Th::Pct(pct(510_000_000)))] {
+                if !thorough && tn != "count2" {
+                    continue;
+                }
+                let mut c = Cfg::base(&format!("C06/flex-on-cw4-stake/A1,B2,C1/{tn}/stake-moves"), true);
+                c.props = Props { c06: true, c03: true, ..Default::default() };
+                c.actors = vec!["A", "B", "C", "X", "ADM"];
+                c.group_admin = 4;
+                c.stake_group = true;
+                c.voters = vec![(0, 1), (1, 2), (2, 1)];
+                c.th = th;
+                c.max_props = 1;
+                c.proposers = vec![0, 3];
+                c.votes = vec![VoteA::Yes, VoteA::No];
+                c.voters_acting = vec![1, 2, 3];
+                c.executors = vec![3];
+                c.closers = vec![3];
+                c.blocks = 2;
+                c.edits = vec![
+                    GroupEdit { remove: vec![1], add: vec![] },
+                    GroupEdit { remove: vec![], add: vec![(1, 1)] },
+                    GroupEdit { remove: vec![], add: vec![(3, 2)] },
+                    GroupEdit { remove: vec![], add: vec![(2, 3)] },
+                ];
+                c.editors = vec![4];
+                c.max_edits = 2;
+                out.push((c, None));
+            }
             // the multisig is unregistered as a hook (and possibly registered again) while proposals are open
             {
                 let mut c = Cfg::base("C06/flex/A1,B2,C1/count2/hook-unregistered-later", true);
@@ -655,7 +704,7 @@ pub fn configs(prop: &str, thorough: bool) -> Vec<(Cfg, Option<usize>)> {
                                 c.allow_amts = vec![1, 2, 3];
                                 c.max_allow = 4;
                             } else {
-                                c.funds = vec![vec![], vec![(0, 1)], vec![(0, 2)], vec![(0, 3)], vec![(1, 1)], vec![(0, 2), (1, 1)], vec![(0, 0), (1, 1)], vec![(0, 0), (1, 2)]];
+                                c.funds = vec![vec![], vec![(0, 1)], vec![(0, 2)], vec![(0, 3)], vec![(1, 1)], vec![(0, 2), (1, 1)], vec![(0, 0), (1, 1)], vec![(0, 0), (1, 2)], vec![(3, 2)]];
                             }
                             out.push((c, None));
                         }
